@@ -3,7 +3,8 @@ import re
 import json, os, time, shutil, subprocess, glob
 from . import run, life, models, scen
 
-VERIF = "/verif"
+# root of this verification tree (normally /verif; a snapshot under /root/.vp/runs/<n>/verif for `vp run`)
+VERIF = os.path.dirname(os.path.dirname(os.path.dirname(os.path.realpath(__file__))))
 EVID = VERIF + "/evidence"
 REPLAYS = VERIF + "/work/replays"
 
@@ -39,7 +40,7 @@ def setup():
     shutil.copy("/repo/Cargo.lock", VERIF + "/harness/Cargo.lock")
     run.cargo_build()
     models.write_all()
-    env = dict(os.environ, JAVA_TOOL_OPTIONS="-DTLA-Library=/verif/spec")
+    env = dict(os.environ, JAVA_TOOL_OPTIONS="-DTLA-Library=" + VERIF + "/spec")
     bad = 0
     mods = sorted(glob.glob(VERIF + "/spec/*.tla")) + sorted(glob.glob(VERIF + "/spec/mc/*.tla"))
     for m in mods:
